@@ -210,7 +210,7 @@ def prog_work(exe_by_variant, start, n):
         for v, exp in case["expect"].items():
             part.count("pin: values compared")
             try:
-                got = sol.lookup([v])
+                got = sol.lookup(v.split("."))
             except KeyError:
                 part.violation("pin/value-missing", "variable %s is not in the solution" % v, {"program": case["text"], "variant": variant})
                 continue
